@@ -889,6 +889,100 @@ fn main() {
             w.rec.end_case(c, true);
         }
 
+        // ================= D25: ONE leader-signed shred with the other last-slice marker derails the repair for good =================
+        // (Lean witness `AgModel.Repair.derail_by_last_marker`; `repair_completes` needs `Admissible` for exactly this reason)
+        {
+            let n = rng.range(2, max_n.max(2)) as usize;
+            let slot = rng.range(2, 30);
+            w.begin("repair-other-marker-derails");
+            let specs = honest_specs(&mut rng, n, slot, 1);
+            let built: Vec<Built> = specs.iter().map(|s| w.build(slot, s)).collect();
+            let blk = w.declare(slot, built);
+            // the Byzantine leader signed a non-last slice j (same content, hence same slice root) also with the last marker
+            let j = rng.below(n as u64 - 1) as usize;
+            let mut early = specs[j].clone();
+            early.is_last = true;
+            let early_b = w.build(slot, &early);
+            w.repair_block(slot, blk.hid, &blk.hash);
+            let mut evil_sent = false;
+            let mut guard = 0;
+            loop {
+                guard += 1;
+                let out = w.outstanding();
+                if out.is_empty() || guard > 4000 { break; }
+                // one hostile peer answers the first shred request of slice j; an honest peer answers everything else
+                let evil_req = if evil_sent { None } else { out.iter().find(|r| matches!(r, RepairRequestType::Shred(_, i, _) if si_usize(*i) == j)).cloned() };
+                if let Some(req) = evil_req {
+                    let jx = match &req { RepairRequestType::Shred(_, _, jx) => jx.inner(), _ => 0 };
+                    let shred = early_b.shreds[jx].clone().into_shred();
+                    let op = w.shred_resp_op(&req, &shred);
+                    evil_sent = true;
+                    if !w.respond(op, RepairResponse::Shred(req.clone(), shred), "other-last-marker") { break; }
+                    continue;
+                }
+                let req = out[0].clone();
+                let (op, resp) = correct_response(&w, &blk, &req);
+                if !w.respond(op, resp, "correct") { break; }
+            }
+            let res = w.q_blk(slot, blk.hid, &blk.hash);
+            let outs = w.outstanding().len();
+            if res.is_none() { w.rec.count("derailed-by-other-last-marker"); }
+            w.rec.oracle(res.is_some(), "repair-derailed-by-signed-variant", || {
+                format!("one leader-signed shred of slice {j} carrying the other last-slice marker (same slice root) was accepted for a {n}-slice block; every request was then answered correctly by an honest peer while outstanding; now {outs} requests are outstanding and the block is not stored")
+            });
+            let c = w.class;
+            w.rec.end_case(c, true);
+        }
+
+        // ================= D15 on the repair path: ONE genuine shred with its data/coding tag flipped derails the repair =================
+        // (correct leader; Lean witness `AgModel.Repair.derail_by_tag`)
+        {
+            let n = rng.range(1, max_n) as usize;
+            let slot = rng.range(2, 30);
+            w.begin("repair-tag-flip-derails");
+            let specs = honest_specs(&mut rng, n, slot, 1);
+            let built: Vec<Built> = specs.iter().map(|s| w.build(slot, s)).collect();
+            let blk = w.declare(slot, built);
+            let j = rng.below(n as u64) as usize;
+            w.repair_block(slot, blk.hid, &blk.hash);
+            let mut evil_sent = false;
+            let mut flipped = false;
+            let mut guard = 0;
+            loop {
+                guard += 1;
+                let out = w.outstanding();
+                if out.is_empty() || guard > 4000 { break; }
+                let evil_req = if evil_sent { None } else { out.iter().find(|r| matches!(r, RepairRequestType::Shred(_, i, _) if si_usize(*i) == j)).cloned() };
+                if let Some(req) = evil_req {
+                    evil_sent = true;
+                    let jx = match &req { RepairRequestType::Shred(_, _, jx) => jx.inner(), _ => 0 };
+                    let good = blk.built[j].shreds[jx].clone().into_shred();
+                    // the tag is the leading enum discriminant on the wire
+                    if let Some(shred) = tamper(&good, None, Some(0)) {
+                        if shred.is_data() != good.is_data() && ValidatedShred::try_new(shred.clone(), None, &w.pk).is_ok() {
+                            flipped = true;
+                            let op = w.shred_resp_op(&req, &shred);
+                            if !w.respond(op, RepairResponse::Shred(req.clone(), shred), "tag-flipped") { break; }
+                            continue;
+                        }
+                    }
+                }
+                let req = out[0].clone();
+                let (op, resp) = correct_response(&w, &blk, &req);
+                if !w.respond(op, resp, "correct") { break; }
+            }
+            let res = w.q_blk(slot, blk.hid, &blk.hash);
+            let outs = w.outstanding().len();
+            w.rec.count(if flipped { "tagflip:sent" } else { "tagflip:not-constructible" });
+            if flipped && res.is_none() { w.rec.count("derailed-by-tag-flip"); }
+            let flagged = w.events.iter().any(|e| e == "invalid");
+            w.rec.oracle(res.is_some(), "repair-derailed-by-tag-flip", || {
+                format!("one genuine shred of slice {j} of a correct leader's {n}-slice block with its data/coding tag flipped by the responding peer was accepted; every request was then answered correctly by an honest peer while outstanding; now {outs} requests are outstanding, the block is not stored (leader flagged: {flagged})")
+            });
+            let c = w.class;
+            w.rec.end_case(c, true);
+        }
+
         // ================= responder =================
         for variant in 0..3 {
             let n = rng.range(1, max_n + 1) as usize;
